@@ -1,6 +1,154 @@
 import Fabio.Driver.Proto
+import Fabio.Model.C19
 namespace Fabio.Driver.C19
-open Lean Fabio.Driver
+open Lean Fabio.Driver Fabio.Model.C19
 
-def streams : List (String × Handler) := []
+/-! Handlers for the C19 streams (`harness/c19/streams.go`). -/
+
+def getI (j : Json) (k : String) : Except String Int := j.getObjValAs? Int k
+def getS (j : Json) (k : String) : Except String String := j.getObjValAs? String k
+def getB (j : Json) (k : String) : Except String Bool := j.getObjValAs? Bool k
+
+def cfgOf (j : Json) : Except String Cfg := do
+  return { dialTimeout := ← getI j "dial", responseHeaderTimeout := ← getI j "rht",
+           keepAliveTimeout := ← getI j "keepalive", idleConnTimeout := ← getI j "idle", maxConn := ← getI j "maxconn" }
+
+/-- `host=`, `proto=`, `tlsskipverify=` and the URL scheme of the generated target → the model's view. -/
+def optsOf (j : Json) : Except String TargetOpts := do
+  let scheme ← getS j "scheme"
+  let proto ← getS j "proto"
+  return { host := ← getS j "host", https := scheme == "https" || proto == "https", tlsSkipVerify := ← getB j "skip" }
+
+def tlsJson : Option TLS → Json
+  | none => Json.null
+  | some t => Json.mkObj [("sni", t.serverName), ("skip", t.insecureSkipVerify)]
+
+def transportJson (t : Transport) : Json :=
+  Json.mkObj [("rht", Json.num (JsonNumber.fromInt t.responseHeaderTimeout)),
+              ("idle", Json.num (JsonNumber.fromInt t.idleConnTimeout)),
+              ("maxidle", Json.num (JsonNumber.fromInt t.maxIdleConnsPerHost)),
+              ("dial", Json.num (JsonNumber.fromInt t.dialTimeout)),
+              ("keepalive", Json.num (JsonNumber.fromInt t.dialKeepAlive)),
+              ("tls", tlsJson t.tls)]
+
+def optTransportJson : Option Transport → Json
+  | none => Json.null
+  | some t => transportJson t
+
+/-- Read a transport as reported by the harness (a `note` means the dialer could not be observed). -/
+def transportOf (j : Json) : Except String (Option Transport) := do
+  if j.isNull then return none
+  let tls ← match j.getObjVal? "tls" with
+    | .ok t => if t.isNull then pure none else do
+        pure (some ({ serverName := ← getS t "sni", insecureSkipVerify := ← getB t "skip" } : TLS))
+    | .error _ => pure none
+  return some { responseHeaderTimeout := ← getI j "rht", idleConnTimeout := ← getI j "idle",
+                maxIdleConnsPerHost := ← getI j "maxidle", dialTimeout := ← getI j "dial",
+                dialKeepAlive := ← getI j "keepalive", tls := tls }
+
+def hasNote (j : Json) : Bool := match j.getObjVal? "note" with | .ok _ => true | .error _ => false
+
+def firstMismatch (c : Cfg) (t : Transport) : String :=
+  if t.responseHeaderTimeout != c.responseHeaderTimeout then "responseheadertimeout"
+  else if t.idleConnTimeout != c.idleConnTimeout then "idleconntimeout"
+  else if t.maxIdleConnsPerHost != c.maxConn then "maxconn"
+  else if t.dialTimeout != c.dialTimeout then "dialtimeout"
+  else if t.dialKeepAlive != c.keepAliveTimeout then "keepalivetimeout"
+  else ""
+
+def allZero (t : Transport) : Bool :=
+  t.responseHeaderTimeout == 0 && t.idleConnTimeout == 0 && t.maxIdleConnsPerHost == 0 && t.dialTimeout == 0 && t.dialKeepAlive == 0
+
+/-- c19.fields: spec = every transport the program built carries the configured five values. -/
+def fieldsH : Handler := fun inp impl => do
+  let cfg ← cfgOf (← inp.getObjVal? "cfg")
+  let o ← optsOf (← inp.getObjVal? "target")
+  -- the cell before the call is whatever the previous case left: `transport_uses_config` holds for every cell
+  let cell := setConfig Cell.init cfg
+  let p := newHTTPProxy cell
+  let tg := addTarget cell o
+  let m := Json.mkObj [("default", transportJson p.transport), ("insecure", transportJson p.insecureTransport),
+                       ("route", optTransportJson tg.transport), ("target_skip", o.tlsSkipVerify)]
+  match impl.getObjVal? "default" with
+  | .error _ =>
+    -- harness_error / panic: not a case of the stream
+    return ({ model := m, agree := false, spec := true, nontrivial := false, tag := "harness-error" } : Verdict).toJson
+  | .ok dj =>
+    let ij ← impl.getObjVal? "insecure"
+    let rj ← impl.getObjVal? "route"
+    let built := [(← transportOf dj), (← transportOf ij), (← transportOf rj)].filterMap id
+    let noted := hasNote dj || hasNote ij || (!rj.isNull && hasNote rj)
+    let bad := built.filter (fun t => !(decide (Carries cfg t)))
+    let spec := bad.isEmpty && built.length ≥ 2 && !noted
+    let cls := match tg.transport with
+      | some _ => "route-override"
+      | none => if o.tlsSkipVerify then "skip-verify" else "default"
+    let tag :=
+      if spec then cls
+      else if noted then "dialer-not-observable"
+      else match bad with
+        | t :: _ => if bad.all allZero then "config-not-applied" else "field-mismatch-" ++ firstMismatch cfg t
+        | [] => "transport-missing"
+    let vals := [cfg.dialTimeout, cfg.responseHeaderTimeout, cfg.keepAliveTimeout, cfg.idleConnTimeout, cfg.maxConn]
+    let nontrivial := (vals.filter (· != 0)).length ≥ 4 && cfg.dialTimeout != cfg.keepAliveTimeout
+        && cfg.responseHeaderTimeout != cfg.idleConnTimeout
+    return ({ model := m, agree := m == impl, spec := spec, nontrivial := nontrivial, tag := tag } : Verdict).toJson
+
+def kindOpts : String → Except String TargetOpts
+  | "default" => pure ⟨"", false, false⟩
+  | "insecure" => pure ⟨"", true, true⟩
+  | "route" => pure ⟨"foo.com", true, true⟩
+  | k => throw s!"unknown kind {k}"
+
+def usedName (t : Target) : String :=
+  match t.transport with
+  | some _ => "route"
+  | none => if t.opts.tlsSkipVerify then "insecure" else "default"
+
+/-- c19.timing: spec = slow upstream ⇒ 504 no later than T (+ slack), fast upstream ⇒ its own status at its
+own time; the expected values are written out here independently of `serve`. -/
+def timingH : Handler := fun inp impl => do
+  let tms ← getI inp "t_ms"
+  let dms ← getI inp "d_ms"
+  let st ← inp.getObjValAs? Nat "status"
+  let o ← kindOpts (← getS inp "kind")
+  let T := tms * 1000000
+  let d := dms * 1000000
+  let cell := setConfig Cell.init { dialTimeout := 2000000000, responseHeaderTimeout := T, keepAliveTimeout := 1000000000,
+                                    idleConnTimeout := 1000000000, maxConn := 4 }
+  let tg := addTarget cell o
+  let tr := selectTransport (newHTTPProxy cell) tg
+  let (ms, mt) := serve roundTrip tr st d
+  let m := Json.mkObj [("status", ms), ("used", usedName tg), ("used_rht", Json.num (JsonNumber.fromInt tr.responseHeaderTimeout)),
+                       ("at_us", Json.num (JsonNumber.fromInt (mt / 1000)))]
+  match impl.getObjValAs? Nat "status" with
+  | .error _ =>
+    return ({ model := m, agree := false, spec := true, nontrivial := false, tag := "harness-error" } : Verdict).toJson
+  | .ok ist =>
+    let el ← getI impl "elapsed_us"
+    let slack ← getI impl "slack_us"
+    let attempts ← getI impl "attempts"
+    let used ← getS impl "used"
+    let urht ← getI impl "used_rht"
+    let err := (impl.getObjValAs? String "err").toOption.getD ""
+    let slow := decide (0 < tms) && decide (tms < dms)
+    let expStatus : Nat := if slow then 504 else st
+    let boundUs : Int := (if slow then tms else dms) * 1000
+    -- lower bound: nothing can come back before min(d, T) (2 ms of timer granularity allowed)
+    let inWindow := decide (boundUs - 2000 ≤ el) && decide (el ≤ boundUs + slack)
+    let spec := err.isEmpty && ist == expStatus && inWindow
+    let agree := ist == ms && used == usedName tg && urht == tr.responseHeaderTimeout
+    let cls := if tms ≤ 0 then "no-limit" else if slow then "slow-504" else "fast-served"
+    let tag :=
+      if spec then (if attempts > 1 then cls ++ "+remeasured" else cls)
+      else if !err.isEmpty then "client-error"
+      else if slow && ist == st && decide (d / 1000 - 2000 ≤ el) then "no-timeout-enforced"
+      else if slow && ist != 504 && decide (el ≤ boundUs + slack) then "timeout-not-504"
+      else if ist == expStatus && decide (el > boundUs + slack) then "late"
+      else if !slow && ist == 504 then "timeout-too-early"
+      else "other"
+    return ({ model := m, agree := agree, spec := spec, nontrivial := decide (0 < tms),
+              tag := tag ++ "/" ++ usedName tg } : Verdict).toJson
+
+def streams : List (String × Handler) := [("c19.fields", fieldsH), ("c19.timing", timingH), ("c19.binary", timingH)]
 end Fabio.Driver.C19
